@@ -638,3 +638,20 @@ VARIANTS += [
                 "new": "    def _templated(self, name) -> bool:\n        return name in self._templates\n\n"
                        "    def serialize(self, vals: Dict[str, Any]):\n        new_segment = {}\n"}]},
 ]
+
+# ---------------------------------------------------------------------- follow-up: text-form limits
+VARIANTS += [
+    {"name": "R2 another verbatim free-text serializer used by a field", "file": INV, "expect": "C20.R2",
+     "old": "    desc: Optional[str] = schema_field(SchemaMultilineStr, default=None)",
+     "new": "    desc: Optional[str] = schema_field(SchemaStr, default=None)"},
+    {"name": "R3 a further field marked llsd_only", "file": INV, "expect": "C20.R3",
+     "old": "    owner_id: Optional[UUID] = schema_field(SchemaUUID, default=None)\n    version:",
+     "new": "    owner_id: Optional[UUID] = schema_field(SchemaUUID, default=None, llsd_only=True)\n    version:"},
+    {"name": "P R3 keyword order of an llsd_only field", "file": INV, "expect": "silent",
+     "old": "schema_field(SchemaInt, default=VERSION_NONE, llsd_only=True)", "new": "schema_field(SchemaInt, llsd_only=True, default=VERSION_NONE)"},
+    {"name": "P R2 metadata written with XML character references", "file": SCHEMA, "expect": "silent",
+     "old": 'return llsd.format_xml(val).split(b">", 1)[1].decode("utf8") + "\\n|"',
+     "new": 'xml = llsd.format_xml(val).split(b">", 1)[1].decode("utf8")\n'
+            '        xml = xml.replace("|", "&#124;").replace("\\n", "&#10;").replace("\\t", "&#9;").replace("\\r", "&#13;")\n'
+            '        return xml + "\\n|"'},
+]
